@@ -26,6 +26,7 @@ type Putter interface {
 
 type Batch interface {
 	Putter
+	Delete(key []byte) error
 	ValueSize() int // amount of data in the batch
 	Write() error
 	// Reset resets the batch for reuse
